@@ -11,7 +11,10 @@ import (
 	"time"
 
 	"github.com/go-logr/logr"
+	autoscalingv1 "k8s.io/api/autoscaling/v1"
 	corev1 "k8s.io/api/core/v1"
+	"k8s.io/apimachinery/pkg/api/resource"
+	metav1 "k8s.io/apimachinery/pkg/apis/meta/v1"
 	"pgregory.net/rapid"
 
 	edsv1 "github.com/DataDog/extendeddaemonset/api/v1alpha1"
@@ -59,8 +62,31 @@ func TestC17Batches(t *testing.T) {
 				badAnn[i] = true
 			}
 		}
+		// one valid setting applies to every node of the batch (the same object in every node item, as getNodeList
+		// hands it out), and some nodes carry a well-formed override annotation for the container it overrides
+		var sharedSetting *edsv1.ExtendedDaemonsetSetting
+		goodAnn := map[int]bool{}
+		if rapid.IntRange(0, 2).Draw(rt, "sharedSettingWithOverrides") == 0 {
+			sharedSetting = &edsv1.ExtendedDaemonsetSetting{ObjectMeta: metav1.ObjectMeta{Namespace: "ns1", Name: "shared"},
+				Spec: edsv1.ExtendedDaemonsetSettingSpec{Reference: &autoscalingv1.CrossVersionObjectReference{Kind: "ExtendedDaemonset", Name: "foo"},
+					Containers: []edsv1.ExtendedDaemonsetSettingContainerSpec{{Name: "agent", Resources: corev1.ResourceRequirements{
+						Limits: corev1.ResourceList{corev1.ResourceCPU: resource.MustParse("1")}, Requests: corev1.ResourceList{corev1.ResourceMemory: resource.MustParse("64Mi")}}}}},
+				Status: edsv1.ExtendedDaemonsetSettingStatus{Status: edsv1.ExtendedDaemonsetSettingStatusValid}}
+			for i := 0; i < n; i++ {
+				if i%2 == 0 {
+					goodAnn[i] = true
+				}
+			}
+		}
 		for i := 0; i < n; i++ {
 			nd := c.AddNode(fmt.Sprintf("n%03d", i), map[string]string{"zone": "a"}, nil)
+			if goodAnn[i] && !badAnn[i] {
+				v := fmt.Sprintf(`{"limits":{"cpu":"%d"},"requests":{"memory":"%dMi"}}`, 2+i%7, 100+i)
+				c.MutateNode(nd.Name, func(x *corev1.Node) {
+					x.Annotations = map[string]string{"resources.extendeddaemonset.datadoghq.com/ns1.foo.agent": v}
+				})
+				nd = c.Node(nd.Name)
+			}
 			if badAnn[i] {
 				c.MutateNode(nd.Name, func(x *corev1.Node) {
 					x.Annotations = map[string]string{"resources.extendeddaemonset.datadoghq.com/ns1.foo.agent": "{"}
@@ -142,7 +168,7 @@ func TestC17Batches(t *testing.T) {
 			var its []*strategy.NodeItem
 			m := map[*strategy.NodeItem]*corev1.Pod{}
 			for _, nd := range nodes {
-				it := strategy.NewNodeItem(nd, nil)
+				it := strategy.NewNodeItem(nd, sharedSetting)
 				its = append(its, it)
 				m[it] = nil
 			}
